@@ -60,6 +60,8 @@ func (p *Program) TypeExpr(id int) string {
 		return "interface{}"
 	case KFuncT:
 		return "func(n int) int"
+	case KAnon:
+		return "struct{ V uint64 }"
 	case KExt:
 		return fmt.Sprintf("hb.X%d", id)
 	case KExtPtr:
@@ -198,6 +200,8 @@ func (p *Program) typeDecls(b *strings.Builder) {
 			fmt.Fprintf(b, "func mkT%d(v uint64) interface{} {\n\tif v == 0 {\n\t\treturn nil\n\t}\n\treturn v\n}\nfunc unT%d(x any) uint64 {\n\tv, _ := x.(uint64)\n\treturn v\n}\n\n", id, id)
 		case KFuncT:
 			fmt.Fprintf(b, "func mkT%d(v uint64) func(n int) int {\n\tif v == 0 {\n\t\treturn nil\n\t}\n\treturn func(n int) int { return int(v) + n }\n}\nfunc unT%d(x func(int) int) uint64 {\n\tif x == nil {\n\t\treturn 0\n\t}\n\treturn uint64(x(0))\n}\n\n", id, id)
+		case KAnon:
+			fmt.Fprintf(b, "func mkT%d(v uint64) struct{ V uint64 } { return struct{ V uint64 }{V: v} }\nfunc unT%d(x struct{ V uint64 }) uint64 { return x.V }\n\n", id, id)
 		case KVis, KVisPtr:
 			fmt.Fprintf(b, "func mkT%d(v uint64) %s { return %s.MkY%d(v) }\nfunc unT%d(x %s) uint64 { return %s.UnY%d(x) }\n\n", id, te, p.hcName(), id, id, te, p.hcName(), id)
 		case KExt, KExtPtr:
@@ -655,17 +659,27 @@ func (pr *printer) source() string {
 			}
 		}
 		if len(f.Results) > 0 {
-			os = append(os, opt{rank(1), func() string {
-				var a []string
-				for i := range f.Results {
-					if f.ResultsVia {
-						a = append(a, fmt.Sprintf("&res.r%d", i))
-						continue
+			mk := func(from, to int) func() string {
+				return func() string {
+					var a []string
+					for i := from; i < to; i++ {
+						if f.ResultsVia {
+							a = append(a, fmt.Sprintf("&res.r%d", i))
+							continue
+						}
+						a = append(a, pr.wp(fmt.Sprintf("&r%d", i), fmt.Sprintf("rt.PoisonPtr(x, &r%d)", i)))
 					}
-					a = append(a, pr.wp(fmt.Sprintf("&r%d", i), fmt.Sprintf("rt.PoisonPtr(x, &r%d)", i)))
+					return "cff.Results(" + strings.Join(a, ", ") + ")"
 				}
-				return "cff.Results(" + strings.Join(a, ", ") + ")"
-			}})
+			}
+			switch {
+			case f.SplitResults == 0 || len(f.Results) < 2:
+				os = append(os, opt{rank(1), mk(0, len(f.Results))})
+			case f.SplitResults == 1: // two cff.Results options next to each other
+				os = append(os, opt{rank(1), mk(0, 1)}, opt{rank(1), mk(1, len(f.Results))})
+			default: // the second one after every other option
+				os = append(os, opt{rank(1), mk(0, 1)}, opt{1 << 20, mk(1, len(f.Results))})
+			}
 		}
 		if f.Concurrency {
 			os = append(os, opt{rank(2), func() string { return "cff.Concurrency(" + pr.wp("x.Conc()", "") + ")" }})
